@@ -501,7 +501,14 @@ func (m *VM) step(i int, op *Op) *Rec {
 			rec.Err = errStr(err)
 			rec.Class = azErrClass(err)
 			if err == nil && a != nil {
-				m.put(op.Out, &AzObj{Az: a, Tok: op.A, Lim: op.Lim})
+				ks, lim, via := op.KS, op.Lim, op.Via
+				m.put(op.Out, &AzObj{Az: a, Tok: op.A, Lim: op.Lim, Scratch: func() biscuit.Authorizer {
+					s, serr, sok := m.newAuthorizer(t, ks, lim, via)
+					if !sok || serr != nil {
+						return nil
+					}
+					return s
+				}})
 			}
 		}
 	case "azadd":
@@ -511,7 +518,18 @@ func (m *VM) step(i int, op *Op) *Rec {
 			break
 		}
 		body = func() {
-			addAuthz(a.Az, op.Az, op.Perm, op.Has("permute-checks"))
+			loaded := false
+			// content may arrive as a stored policy file only while the authorizer holds nothing yet
+			// (LoadPolicies replaces checks and policies and restarts the symbol table)
+			clean := !a.Evaluated && !a.Unknown && len(a.Content.Facts)+len(a.Content.Rules)+len(a.Content.Checks)+len(a.Content.Policies) == 0
+			if op.Has("via-load") && clean && a.Scratch != nil {
+				if s := a.Scratch(); s != nil {
+					loaded = m.addViaLoad(s, a.Az, op.Az, op.Perm, op.Has("permute-checks"))
+				}
+			}
+			if !loaded {
+				addAuthz(a.Az, op.Az, op.Perm, op.Has("permute-checks"))
+			}
 			a.Content.Facts = append(a.Content.Facts, op.Az.Facts...)
 			a.Content.Rules = append(a.Content.Rules, op.Az.Rules...)
 			a.Content.Checks = append(a.Content.Checks, op.Az.Checks...)
@@ -867,7 +885,15 @@ func (m *VM) doVerify(rec *Rec, op *Op, t *TokObj) {
 		rec.Class = "rejected:" + v.AzErr
 		return
 	}
-	addAuthz(a, op.Az, op.Perm, op.Has("permute-checks"))
+	loaded := false
+	if op.Has("via-load") && op.Az != nil {
+		if s, serr, sok := m.newAuthorizer(t, op.KS, op.Lim, op.Via); sok && serr == nil && s != nil {
+			loaded = m.addViaLoad(s, a, op.Az, op.Perm, op.Has("permute-checks"))
+		}
+	}
+	if !loaded {
+		addAuthz(a, op.Az, op.Perm, op.Has("permute-checks"))
+	}
 	if op.Has("query-before") {
 		for _, q := range op.Qs {
 			queryRec(a, q)
